@@ -210,6 +210,20 @@ def generate(rng, run, tier):
         prelude = []
         strategy = {'kind': 'hotpct', 'points': sorted(rng.sample(range(1, 260), rng.choice([2, 3, 4]))), 'hot': ['clawpkgmain.py'],
                     'p_cold': rng.choice([0.0, 0.001])}
+    if rng.random() < 0.05:
+        # scenario "lookup against registration": one thread looks modules up (what every hooked import does) while another
+        # registers their package under a configuration whose skip list names them; looked up before the registration a
+        # module is unregistered, after it it is skipped - never checked. Pre-emption concentrated on the lookup code.
+        top = rng.choice(['aa', 'bb'])
+        subs = [n for n in PKG_NAMES if n.startswith(top + '.')]
+        skipped = rng.sample(subs, rng.randint(1, len(subs)))
+        lookups = [{'op': 'claw_query', 'name': rng.choice(skipped + [s_ + '.zz' for s_ in skipped])} for _ in range(rng.randint(1, 3))]
+        reg = [{'op': 'claw_pkg', 'names': [top], 'conf': {'skip': skipped}}]
+        threads = [lookups, reg] + [[{'op': 'claw_query', 'name': rng.choice(skipped)}] for _ in range(max(0, nthreads - 2))]
+        rng.shuffle(threads)
+        prelude = []
+        strategy = {'kind': 'hotpct', 'points': sorted(rng.sample(range(1, 120), rng.choice([1, 2, 3]))), 'hot': ['clawpkgtrie.py'],
+                    'p_cold': rng.choice([0.0, 0.001])}
     avoid_cw = rng.random() < 0.8
     if avoid_cw:
         # known finding C15-catch-warnings: warnings.catch_warnings is process-global. Most runs steer around it:
